@@ -65,7 +65,7 @@ Definition find_hint {V : Type} (bounds keycmp fallback : bool) (k : string) (hi
 
 (* ---------------------------------------------------------------- functions *)
 (* KDyn    script `def`                      (Dynamic_Proxy_Function)
-   KCpp k  C++ callable of kind k, k int parameters (Proxy_Function_Callable_Impl<Func, Callable_k>)
+   KCpp k  C++ callable of kind k, (k mod 10) int parameters (Proxy_Function_Callable_Impl<Func, Callable_k>)
    KAttr / KMethod / KCtor c   class members of script class c (Dynamic_Object_Function / _Constructor) *)
 Inductive fkind := KDyn | KCpp (k : nat) | KAttr (c : string) | KMethod (c : string) | KCtor (c : string).
 (* identity of a function object: the definition site and the evaluation that created it (a file that is
@@ -88,7 +88,8 @@ Definition conflict (f g : fdesc) : bool :=
   | _, _ => false
   end.
 
-Definition has_arith (f : fdesc) : bool := match f_kind f with KCpp k => Nat.ltb 0 k | _ => false end.
+(* a C++ callable of kind k takes (k mod 10) int parameters *)
+Definition has_arith (f : fdesc) : bool := match f_kind f with KCpp k => Nat.ltb 0 (Nat.modulo k 10) | _ => false end.
 
 (* function_less_than restricted to the kinds above.  Attribute accessors (first parameter Dynamic_Object&)
    sort before functions whose first parameter is a Boxed_Value ("boxed values are sorted last": methods,
